@@ -700,7 +700,7 @@ def vc_abs(a):
     return builtins.abs(a)
 
 
-def vc_int(v, *a):
+def _vc_int(v=0, *a):
     if isinstance(v, Z):
         return v
     if isinstance(v, B):
@@ -710,12 +710,36 @@ def vc_int(v, *a):
     return builtins.int(v, *a)
 
 
-def vc_float(v):
+def _vc_float(v=0.0):
     if isinstance(v, (R, Z)):
         return lift(v)
     if isinstance(v, C):
         raise TypeError("can't convert complex to float")
     return builtins.float(v)
+
+
+class _BuiltinTypeOverlay(type):
+    """the overlays of `int` / `float` stay usable where the repository uses them as TYPES (isinstance, issubclass, dtype
+    arguments are normalised by the numpy proxy): calling converts like the built-in, with symbolic values passed through"""
+
+    def __call__(cls, *a, **k):
+        return cls._convert(*a, **k)
+
+    def __instancecheck__(cls, obj):
+        return isinstance(obj, cls._real)
+
+    def __subclasscheck__(cls, sub):
+        return issubclass(sub, cls._real)
+
+
+class vc_int(metaclass=_BuiltinTypeOverlay):
+    _real = builtins.int
+    _convert = staticmethod(_vc_int)
+
+
+class vc_float(metaclass=_BuiltinTypeOverlay):
+    _real = builtins.float
+    _convert = staticmethod(_vc_float)
 
 
 def vc_max(*a, **kw):
